@@ -1208,7 +1208,8 @@ class DocutilsRenderer(RendererProtocol):
         if isinstance(token.content, str):
             try:
                 data = yaml.safe_load(token.content)
-            except (yaml.parser.ParserError, yaml.scanner.ScannerError):
+            except Exception:
+                # any failure to load the YAML, see `read_topmatter`
                 self.create_warning(
                     "Malformed YAML",
                     MystWarnings.MD_TOPMATTER,
